@@ -319,6 +319,10 @@ impl Sim {
                             .collect(),
                         mins: [min0.u128(), min1.u128()],
                         lp_decimals: lp_decimals.unwrap_or(6),
+                        standard: assets.iter().all(|a| match a {
+                            AssetRef::Raw(addr) => self.ledger.cw20s.contains(addr),
+                            _ => true,
+                        }),
                     };
                     self.model.pairs.push(pm);
                 }
